@@ -215,12 +215,37 @@ def ts_key(s):
     return int((d - dt.datetime(1970, 1, 1)).total_seconds()) * 1000000 + int((frac + "000000")[:6])
 
 
+UUIDS = {"v1": "6ba7b810-9dad-11d1-80b4-00c04fd430c8", "v3": "6fa459ea-ee8a-3ca4-894e-db77e160355e",
+         "v4": "0b2a1d6e-4c3f-4e0a-9d7b-5a1f2e3c4d5e", "v5": "886313e1-3b8a-5372-9b90-0c9aee199e5d"}
+HELPER_EXT = "x-helper-ext"
+UNREG_EXT = "extension-definition--7c0a4f2e-9b1d-4c3e-8f5a-2d6b1e0c9a87"
+
+
 def run_guarantee(case):
     """For each registration (all meant to be valid): register, then evaluate
     on the registered type what the property promises for built-in types."""
     import stix2
+    from stix2 import properties as P
     from stix2.base import _STIXBase
     out = []
+    # a registered property-extension that instances of the custom types below will carry
+    try:
+        stix2.v21.CustomExtension(HELPER_EXT, [("hprop", P.StringProperty(required=True))])(
+            type("HelperExt", (object,), {"extension_type": "property-extension"}))
+        helper = "ok"
+    except Exception as e:  # noqa: BLE001
+        helper = "exc:" + type(e).__name__
+
+    def field_text(obj, names):
+        d = json.loads(obj.serialize())
+        return {k: d.get(k) for k in names}
+
+    def outcome(fn, body, names):
+        try:
+            o = fn(body)
+        except Exception as e:  # noqa: BLE001
+            return ["exc:" + type(innermost(e)).__name__ if not isinstance(e, stix2.exceptions.STIXError) else "exc:" + type(e).__name__]
+        return ["ok", field_text(o, names)]
     for o in case["regs"]:
         res = {"name": o["name"], "kind": o["kind"], "ver": o["ver"]}
         status, cls = do_register(o)
@@ -296,6 +321,60 @@ def run_guarantee(case):
                                          ((json.dumps(json.loads(pick(back).serialize())[k]), v) for k, v in vals.items()))
             except Exception as e:  # noqa: BLE001
                 res["roundtrip_equal"] = "exc:" + type(e).__name__
+        # other extensions on the instance are kept (next to the one extension_name= adds)
+        if ver == "2.1" and kind in ("object", "observable") and helper == "ok":
+            extra = {HELPER_EXT: {"extension_type": "property-extension", "hprop": "hv"},
+                     UNREG_EXT: {"extension_type": "property-extension", "foo_val": "v"}}
+            doc2, _ = build(vals)
+            doc2["extensions"] = dict(extra)
+            st2, obj2 = attempt(doc2)
+            ee = {"parse": st2}
+            if obj2 is not None:
+                try:
+                    t2 = obj2.serialize()
+                    exts = json.loads(t2).get("extensions", {})
+                    ee["kept"] = all(exts.get(k) == v for k, v in extra.items())
+                    ee["extname_present"] = (o["extname"] in exts) if o.get("extname") else True
+                    back2 = parse(json.loads(t2))
+                    ee["roundtrip_equal"] = bool(back2 == obj2)
+                    ee["roundtrip_text_equal"] = back2.serialize() == t2
+                except Exception as e:  # noqa: BLE001
+                    ee["error"] = "exc:" + type(e).__name__
+            res["extra_extensions"] = ee
+        # version-dependent validation: the custom type against a built-in type of the same family and version
+        if kind == "object" or (kind == "observable" and ver == "2.1"):
+            if kind == "object":
+                ref_type = "identity"
+                ref_doc = dict(BUILTIN_BODIES["identity"], type="identity", id="identity--" + UUID4)
+            else:
+                ref_type = "url"
+                ref_doc = {"type": "url", "value": "https://example.com/", "id": "url--" + UUID4}
+            if ver == "2.1":
+                ref_doc["spec_version"] = "2.1"
+            cust_doc, _ = build(vals)
+            probes = []
+            for label, u in sorted(UUIDS.items()):
+                probes.append(("id with a UUID" + label, lambda t, u=u: {"id": t + "--" + u}, ["id"]))
+            if kind == "object":
+                for label in ("v1", "v5"):
+                    probes.append(("created_by_ref with a UUID" + label,
+                                   lambda t, u=UUIDS[label]: {"created_by_ref": "identity--" + u}, ["created_by_ref"]))
+                for ts in ("2020-01-02T03:04:05Z", "2020-01-02T03:04:05.1Z", "2020-01-02T03:04:05.123456Z"):
+                    probes.append(("created/modified " + ts, lambda t, ts=ts: {"created": ts, "modified": ts}, ["created", "modified"]))
+            for label in ("v1", "v5"):
+                probes.append(("object_marking_refs with a UUID" + label,
+                               lambda t, u=UUIDS[label]: {"object_marking_refs": ["marking-definition--" + u]}, ["object_marking_refs"]))
+            vp = []
+            for label, upd, names in probes:
+                a = outcome(parse, dict(cust_doc, **upd(name)), names)
+                b = outcome(parse, dict(ref_doc, **upd(ref_type)), names)
+                # the id text differs by the type prefix only
+                def norm(r, t):
+                    if len(r) == 2 and isinstance(r[1].get("id"), str) and r[1]["id"].startswith(t + "--"):
+                        r = [r[0], dict(r[1], id="T--" + r[1]["id"][len(t) + 2:])]
+                    return r
+                vp.append({"probe": label, "custom": norm(a, name), "builtin": norm(b, ref_type), "builtin_type": ref_type})
+            res["version_probes"] = vp
         # validation: a missing required property, a wrong-kind value, an undeclared property
         res["missing"] = {}
         for rp in req:
